@@ -311,6 +311,32 @@ func c12One(e c12Entry, val c12Val) (msg, sig string) {
 			return fmt.Sprintf("%s with %T(%v): Get returns Go type %T, want %v", e.Name, val.In, val.In, p.got, wantT), "norm/gotype/" + val.Class
 		}
 	}
+	if w.IsContainer() && !val.Ident {
+		// a second conversion of the same Go value must give ANOTHER container, independent of the first
+		var cont2, slot2, tgt2 interface{}
+		if pn2, _ := try(func() { cont2, slot2 = e.Run(val.In, &tgt2) }); !pn2 {
+			if p2, err2 := c12Read(cont2, slot2); err2 == "" {
+				if p2.got == p.got {
+					return fmt.Sprintf("%s with %T: two conversions of the same Go value give the identical container", e.Name, val.In), "norm/conversion-shared/" + val.Class
+				}
+				switch x := p.got.(type) {
+				case at.List:
+					x.Add("touched")
+				case at.Object:
+					x.Set("touched", 1)
+				}
+				if m := spec.Match(p2.got, w); m != "" {
+					return fmt.Sprintf("%s with %T: modifying the container made by one conversion changes the container made by another: %s", e.Name, val.In, m), "norm/conversion-shared/" + val.Class
+				}
+				switch x := p.got.(type) { // undo, the first container is inspected further below
+				case at.List:
+					x.Pop()
+				case at.Object:
+					x.Unset("touched")
+				}
+			}
+		}
+	}
 	g := c12Getter(w.K)
 	for k := 0; k < 6; k++ {
 		if p.ok[k] != (k == g) {
